@@ -464,6 +464,9 @@ func (s *Sim) Run(sc Scenario) {
 		}
 		a.Do()
 	}
+	if s.StepCap && s.W.HotLoops > 0 {
+		s.W.KillHotLoops()
+	}
 	sc.Finish(s)
 	sc.Teardown(s)
 	s.drainAll()
@@ -482,7 +485,7 @@ func (s *Sim) livelock() {
 			best, n = k, v
 		}
 	}
-	if n < s.MaxSteps/4 || !strings.HasPrefix(best, "run") || !(strings.Contains(best, " @lock:") || strings.Contains(best, " @wake:")) {
+	if n < s.MaxSteps/4 || !strings.HasPrefix(best, "run") || !(strings.Contains(best, " @lock:") || strings.Contains(best, " @wake:") || strings.Contains(best, " @loop:")) {
 		return
 	}
 	site := best[strings.Index(best, " @")+2:]
